@@ -687,10 +687,15 @@ impl EventBatch {
     }
 
     fn advance(&mut self) {
-        let advanced = mem::take(&mut self.bufs[self.index]);
+        let advanced = &self.bufs[self.index];
 
-        self.index += 1;
         self.remaining_bytes -= advanced.len();
+        self.index += 1;
+    }
+
+    fn rewind(&mut self) {
+        self.index = 0;
+        self.remaining_bytes = self.bufs.iter().map(|buf| buf.len()).sum();
     }
 }
 
@@ -886,6 +891,10 @@ impl Worker {
                         err,
                     )
                 }));
+
+                // Events already written to the poisoned file haven't been synced,
+                // so they need to be retried along with the rest of the batch
+                batch.rewind();
 
                 return Err(emit_batcher::BatchError::retry(err, batch));
             }
